@@ -13,6 +13,7 @@ import (
 	"path/filepath"
 	"reflect"
 	"strings"
+	"sync"
 	"time"
 
 	"github.com/bytedance/sonic"
@@ -278,6 +279,41 @@ func xcompare(c *ev.Ctx, r *ev.Report, prop, suite string, cfgs []xcfgSpec, keyO
 	}
 	r.Evaluations += int64(n * len(cfgs))
 	r.Count("cases_"+suite, int64(n))
+	// regeneration of all mismatching cases: one pass per (configuration, side), all passes at
+	// the same time (each re-enumerates the suite up to its last pick)
+	type regen struct {
+		A, B   []map[string]string
+		e1, e2 error
+	}
+	regens := make([]regen, len(cfgs))
+	var wg sync.WaitGroup
+	for i := 1; i < len(cfgs); i++ {
+		if len(idxs[i]) == 0 {
+			continue
+		}
+		pl := filepath.Join(dir, fmt.Sprintf("%s-%s-%d-%d-picks.txt", prop, suite, c.Shard, i))
+		os.WriteFile(pl, []byte(strings.Join(idxs[i], ",")), 0o644)
+		for side := 0; side < 2; side++ {
+			wg.Add(1)
+			go func(i, side int) {
+				defer wg.Done()
+				out := filepath.Join(dir, fmt.Sprintf("%s-%s-%d-%d-pick%d.jsonl", prop, suite, c.Shard, i, side))
+				cfg := cfgs[0]
+				if side == 1 {
+					cfg = cfgs[i]
+				}
+				e := runSuiteChild(c, prop, suite, cfg, "@"+pl, out)
+				got := readPicks(out)
+				os.Remove(out)
+				if side == 0 {
+					regens[i].A, regens[i].e1 = got, e
+				} else {
+					regens[i].B, regens[i].e2 = got, e
+				}
+			}(i, side)
+		}
+	}
+	wg.Wait()
 	mism := 0
 	for i := 1; i < len(cfgs); i++ {
 		idx := idxs[i]
@@ -285,22 +321,13 @@ func xcompare(c *ev.Ctx, r *ev.Report, prop, suite string, cfgs []xcfgSpec, keyO
 		if len(idx) == 0 {
 			continue
 		}
+		os.Remove(filepath.Join(dir, fmt.Sprintf("%s-%s-%d-%d-picks.txt", prop, suite, c.Shard, i)))
 		if mismOf[i] > maxRegen {
 			r.Notes = append(r.Notes, fmt.Sprintf("suite %s vs %s: %d mismatching cases, only the first %d were regenerated and classified", suite, cfgs[i].name, mismOf[i], maxRegen))
 			r.Violate(ev.Violation{Property: prop, Key: cfgs[i].name + ":more-mismatches-than-can-be-classified:" + suite, What: "too many mismatching cases to classify all of them",
 				Case: ev.J(map[string]string{"suite": suite, "cfg": cfgs[i].name}), Expected: "<= 40000 mismatches per shard", Observed: fmt.Sprint(mismOf[i])})
 		}
-		// regenerate all mismatching cases in one pass per configuration
-		pa := filepath.Join(dir, fmt.Sprintf("%s-%s-%d-pickA.jsonl", prop, suite, c.Shard))
-		pb := filepath.Join(dir, fmt.Sprintf("%s-%s-%d-pickB.jsonl", prop, suite, c.Shard))
-		pl := filepath.Join(dir, fmt.Sprintf("%s-%s-%d-picks.txt", prop, suite, c.Shard))
-		os.WriteFile(pl, []byte(strings.Join(idx, ",")), 0o644)
-		e1 := runSuiteChild(c, prop, suite, cfgs[0], "@"+pl, pa)
-		e2 := runSuiteChild(c, prop, suite, cfgs[i], "@"+pl, pb)
-		os.Remove(pl)
-		A, B := readPicks(pa), readPicks(pb)
-		os.Remove(pa)
-		os.Remove(pb)
+		A, B, e1, e2 := regens[i].A, regens[i].B, regens[i].e1, regens[i].e2
 		if e1 != nil || e2 != nil || len(A) != len(idx) || len(B) != len(idx) {
 			r.Notes = append(r.Notes, fmt.Sprintf("could not regenerate the %d mismatching cases of suite %s (%v %v %d %d)", len(idx), suite, e1, e2, len(A), len(B)))
 			r.Exhaustive = false
